@@ -2,8 +2,8 @@
 
 use opcua::verif;
 
-/// 2024-01-01T00:00:00Z in microseconds.
-pub const EPOCH_US: i64 = 1_704_067_200_000_000;
+/// 2027-01-01T00:00:00Z in microseconds (inside the validity of the fixture certificates).
+pub const EPOCH_US: i64 = 1_798_761_600_000_000;
 
 pub fn reset_for_run(seed: u64) {
     verif::clock::arm(EPOCH_US, 1);
@@ -27,4 +27,9 @@ pub fn advance_wall_us(d: i64) {
 
 pub fn utc_now() -> chrono::DateTime<chrono::Utc> {
     verif::clock::utc_now()
+}
+
+/// Switch the wall clock seam to follow tokio's (paused) clock. Call inside the runtime.
+pub fn follow_tokio() {
+    verif::clock::arm_follow_tokio(EPOCH_US);
 }
